@@ -26,6 +26,7 @@ use microscpi::{Arbitrary, Response};
 
 #[derive(Default)]
 struct Acc {
+    exact_fill: u64,
     res: PropResult,
     distinct: HashSet<u64>,
     distinct_direct: u64,
@@ -174,6 +175,10 @@ fn f64_direct(acc: &mut Acc, bits: u64, log: bool) {
 const STR_PIECES: [&str; 20] = ["\"", "a", ",", ";", "\n", "\u{e9}", "\u{1F600}", " ", "\"\"", "'", "#", "x\"y", "\r\n", "\t", "\\", "Z", "0", ":", "\u{0}", "\u{3a9}"];
 
 fn rand_string(rng: &mut Rng, max: usize) -> String {
+    if rng.chance(1, 16) {
+        // nothing but double quotes
+        return "\"".repeat(rng.range(1, 4));
+    }
     let n = rng.below(max + 1);
     let mut s = String::new();
     for _ in 0..n {
@@ -310,6 +315,25 @@ fn e2e_shard(ctx: &Ctx, shard: usize, scripts: u64) -> Acc {
                 }
                 outs.push((wname, s.out));
             }
+            // a heapless writer that has room for exactly this response, not a byte more
+            if let Some((_, want)) = outs.first().cloned() {
+                if crate::drive::HEAPLESS_CAPS.contains(&want.len()) && !want.is_empty() {
+                    let out = drive_run::<RDev>(&RunSpec { inputs: &[&input], writer: WriterKind::Heapless(want.len()), pend_seed: 0 });
+                    if !out.crashed() {
+                        acc.res.evaluations += 1;
+                        acc.exact_fill += 1;
+                        let s = streams(&out.log);
+                        if s.out != want || s.errs() > 0 {
+                            violation(
+                                &mut acc,
+                                format!("exact-capacity-writer-differs/{}", leaf_kind(&leaves)),
+                                format!("{}: heapless::Vec<u8,{}> has room for the {}-byte response \"{}\" but received \"{}\" ({} errors)", q, want.len(), want.len(), esc(&want), esc(&s.out), s.errs()),
+                                vec![("query", J::s(*q)), ("capacity", want.len().into()), ("expected", J::s(esc(&want))), ("received", J::s(esc(&s.out))), ("events", J::strs(s.show()))],
+                            );
+                        }
+                    }
+                }
+            }
             // same bytes for every writer
             for w in outs.windows(2) {
                 if w[0].1 != w[1].1 {
@@ -352,6 +376,12 @@ fn e2e_shard(ctx: &Ctx, shard: usize, scripts: u64) -> Acc {
                         want.extend_from_slice(&reference[order[k + j]].1);
                     }
                     stream.push(b'\n');
+                    if per == 1 && rng.chance(1, 4) {
+                        // the same query once more, as the next message
+                        stream.extend_from_slice(reference[order[k]].0.as_bytes());
+                        stream.push(b'\n');
+                        want.extend_from_slice(&reference[order[k]].1);
+                    }
                     k += per;
                 }
                 let chunks = if chunked { super::c05::random_chunks(&mut rng, stream.len()) } else { vec![] };
@@ -471,6 +501,23 @@ fn direct_shard(ctx: &Ctx, shard: usize, shards: usize) -> Acc {
         let w = f32::from_bits(rng.next() as u32) as f64;
         f64_direct(&mut acc, w.to_bits(), i % 64 == 1);
     }
+    if shard == 0 {
+        // powers of ten and their neighbours (digit-count boundaries of the formatter)
+        for k in -320i32..=308 {
+            let x: f64 = format!("1e{}", k).parse().unwrap();
+            for b in [x.to_bits().wrapping_sub(1), x.to_bits(), x.to_bits() + 1] {
+                f64_direct(&mut acc, b, k % 16 == 0);
+                f64_direct(&mut acc, b | (1u64 << 63), false);
+            }
+            if (-45..=38).contains(&k) {
+                let y: f32 = format!("1e{}", k).parse().unwrap();
+                for b in [y.to_bits().wrapping_sub(1), y.to_bits(), y.to_bits() + 1] {
+                    f32_direct(&mut acc, b, k % 8 == 0);
+                    f32_direct(&mut acc, b | (1u32 << 31), false);
+                }
+            }
+        }
+    }
     for w in [0.1f32, 0.2, 0.3, 1.1, 3.3, 1e10, 1e-10, 16777217.0, 1.0e38] {
         f64_direct(&mut acc, (w as f64).to_bits(), true);
         f64_direct(&mut acc, (-(w as f64)).to_bits(), true);
@@ -544,10 +591,13 @@ fn direct_shard(ctx: &Ctx, shard: usize, shards: usize) -> Acc {
         let ls: &[&str] = &l;
         direct(&mut acc, "slice-of-str", || format!("{:?}", l), &ls, &[Leaf::Str(s.as_bytes().to_vec()), Leaf::Str(vec![]), Leaf::Str(s.as_bytes().to_vec())]);
     }
+    if shard == 0 {
+        exact_fill_direct(&mut acc);
+    }
     // blocks: every length 0..=300 and around the powers of ten (pass-through and std writers only
     // for the large ones; the heapless writer used by `direct` holds 1024 bytes)
     if shard == 0 {
-        for len in (0..=300usize).chain([999, 1000, 1001]) {
+        for len in (0..=1100usize).chain([4095, 4096, 4097, 65535, 65536, 65537]) {
             let payload: Vec<u8> = (0..len).map(|i| (i * 7 + len) as u8).collect();
             acc.max_block = acc.max_block.max(len);
             if len <= 1000 - 8 {
@@ -566,6 +616,46 @@ fn direct_shard(ctx: &Ctx, shard: usize, shards: usize) -> Acc {
         }
     }
     acc
+}
+
+/// The library's `Write` for `heapless::Vec<u8, N>`: text that fits exactly is taken completely,
+/// byte for byte, whichever of the trait's methods delivers the last piece.
+fn exact_fill_direct(acc: &mut Acc) {
+    use microscpi::Write as W;
+    macro_rules! one {
+        ($($n:literal),*) => {$(
+            {
+                for last in 0..3usize {
+                    let mut v: heapless::Vec<u8, $n> = heapless::Vec::new();
+                    // N-1 bytes first, then the last piece (the newline that ends every response;
+                    // the library itself only ever passes ASCII to write_char)
+                    let tail: &str = "\n";
+                    if tail.len() > $n {
+                        continue;
+                    }
+                    let head: String = "x".repeat($n - tail.len());
+                    let r0 = block_on(W::write_str(&mut v, &head), 1000);
+                    let r1 = match last {
+                        0 => block_on(W::write_char(&mut v, tail.chars().next().unwrap()), 1000),
+                        1 => block_on(W::write_str(&mut v, tail), 1000),
+                        _ => block_on(W::write_bytes(&mut v, tail.as_bytes()), 1000),
+                    };
+                    acc.res.evaluations += 1;
+                    acc.exact_fill += 1;
+                    let want = format!("{}{}", head, tail);
+                    if !matches!(r0, Ok(Ok(()))) || !matches!(r1, Ok(Ok(()))) || &v[..] != want.as_bytes() {
+                        violation(
+                            acc,
+                            "exact-capacity-writer-differs/direct".into(),
+                            format!("heapless::Vec<u8,{}>: {} bytes written, then the last {} byte(s) by method {} -> {:?}, buffer holds {} bytes", $n, head.len(), tail.len(), ["write_char", "write_str", "write_bytes"][last], r1, v.len()),
+                            vec![("capacity", ($n as usize).into()), ("method", last.into())],
+                        );
+                    }
+                }
+            }
+        )*};
+    }
+    one!(1, 2, 3, 4, 5, 6, 7, 8, 9, 10, 11, 12, 13, 15, 16, 17, 24, 31, 32, 33, 63, 64, 65, 100, 127, 128, 255, 256, 257, 1000);
 }
 
 fn big_block(acc: &mut Acc, payload: &[u8]) {
@@ -630,6 +720,7 @@ pub fn run(ctx: &Ctx) -> PropResult {
     let mut by_type: BTreeMap<String, u64> = BTreeMap::new();
     let mut writers: BTreeMap<&'static str, u64> = BTreeMap::new();
     let (mut noout, mut ord, mut f32n, mut f64n, mut ni, mut qs, mut mb) = (0, 0, 0, 0, 0, 0, 0);
+    let mut exact = 0u64;
     let mut floatlog: Vec<String> = Vec::new();
     for acc in accs {
         distinct += acc.distinct.len() as u64 + acc.f32_direct + acc.f64_direct + acc.distinct_direct;
@@ -640,6 +731,7 @@ pub fn run(ctx: &Ctx) -> PropResult {
             *writers.entry(k).or_default() += v;
         }
         noout += acc.no_output_cases;
+        exact += acc.exact_fill;
         ord += acc.order_checked;
         f32n += acc.f32_direct;
         f64n += acc.f64_direct;
@@ -672,6 +764,7 @@ pub fn run(ctx: &Ctx) -> PropResult {
     res.cov("strings_containing_a_double_quote", qs);
     res.cov("largest_block_bytes", mb);
     res.cov("silent_unit_executions", noout);
+    res.cov("responses_into_a_writer_with_exactly_enough_room", exact);
     res.cov("run_logs_checked_for_newline_and_flush", ord);
     res.cov("float_responses_logged_for_exact_check", floatlog.len());
     res.cov("std_writer_included", cfg!(feature = "std"));
